@@ -38,4 +38,7 @@ CHECKS = {
  'C03': dict(engine='GEN+CIR', technique='template kernels compiled by the real Cython; generated C + CMath.c helpers lowered with clang to LLVM IR and encoded as z3 bit-vector BMC formulas; one unsat query per obligation over ALL operand values; NIA lemmas for the floor/remainder closed forms; replay on a native build',
              text='For each of the listed kernels (type x operator x divisor kind x cdivision) and for every value of the operands at full width: divisor != 0 and fitting result => the stored result equals the Python floor quotient / remainder (C truncation with cdivision on) with no error set; divisor == 0 with cdivision off => returns the error value with ZeroDivisionError set.',
              note='Trusted: clang-14 front end + mem2reg, the IR->SMT translator (self-tested against the native build each run), z3, SMT-LIB division as C division. Programs are an enumerated family; within each the claim is for all inputs.', level='model_checking'),
+ 'C04': dict(engine='GEN+CIR', technique='overflowcheck template kernels compiled by the real Cython; both preprocessor arms of Overflow.c lowered to LLVM IR and encoded in z3 (bit-vectors); soundness/completeness/no-UB obligations discharged for all operand values, UF abstraction of shared multipliers, NIA lemmas for the division-based multiplication test; counterexamples replayed on native (and UBSan) builds',
+             text='For each listed kernel (type x expression shape x fold setting x {__builtin_*_overflow arm, portable arm}) and every operand value: a normal return carries the exact result; every unrepresentable (sub)result or zero divisor raises OverflowError/ZeroDivisionError; no executed operation is undefined behaviour. Known findings (unchecked unary minus, MIN // -1 on types narrower than long) are reported as KNOWN-FINDING and excluded by input-space predicates.',
+             note='Trusted: clang-14 + mem2reg, the IR->SMT translator, z3, SMT-LIB overflow predicates as the definition of "not representable" (64-bit multiplication). 64-bit symbolic x symbolic multiplication through the portable division-based arm is attempted in the thorough tier only.'),
 }
